@@ -404,6 +404,9 @@ func (s *Session) reply(cmdSeq int, verb string, nth int, act Action, defCode in
 	if kind == "garbage" {
 		full = "\x16\x03\x01 not an SMTP reply " + token
 		wire.WriteString(full + "\r\n")
+	} else if kind == "raw" {
+		full = text
+		fmt.Fprintf(&wire, "%d %s\r\n", code, text)
 	} else {
 		lines := strings.Split(text, "\n")
 		for i, l := range lines {
